@@ -4,7 +4,9 @@ package c11
 import (
 	"database/sql"
 	"fmt"
+	"math"
 	"os"
+	"sort"
 	"strings"
 	"testing"
 
@@ -53,11 +55,15 @@ type Case struct {
 	GroupBy []string
 	Execs   [][]Arg
 	Prepare bool // Prepare+Stmt.Query (else DB.Query with arguments)
+	// Twin: a second statement with the same text is prepared before the
+	// first execution and closed right after it; the first statement must not
+	// notice.
+	Twin bool
 }
 
 func (c *Case) Summary() string {
 	var b strings.Builder
-	fmt.Fprintf(&b, "%s query %s GROUP BY %q path=%s execs:", c.Data.Summary(), c.Tree.String(), c.GroupBy, map[bool]string{true: "prepare", false: "direct"}[c.Prepare])
+	fmt.Fprintf(&b, "%s query %s GROUP BY %q path=%s twin=%v execs:", c.Data.Summary(), c.Tree.String(), c.GroupBy, map[bool]string{true: "prepare", false: "direct"}[c.Prepare], c.Twin)
 	for _, e := range c.Execs {
 		b.WriteString(" (")
 		for i, a := range e {
@@ -127,8 +133,23 @@ func driverOracle(c *Case) (tooFew int, err error) {
 		}
 		defer stmt.Close()
 	}
+	var twin *sql.Stmt
+	if c.Prepare && c.Twin {
+		if err := fix.Safe(func() error { var e error; twin, e = db.Prepare(text); return e }); err != nil {
+			return 0, fmt.Errorf("second Prepare(%+q): %v", text, err)
+		}
+		defer func() {
+			if twin != nil {
+				twin.Close()
+			}
+		}()
+	}
 	need := int(c.Tree.MaxPH())
 	for k, e := range c.Execs {
+		if k == 1 && twin != nil {
+			twin.Close()
+			twin = nil
+		}
 		args := make([]any, len(e))
 		texts := make([]string, len(e))
 		for i, a := range e {
@@ -342,18 +363,18 @@ func dedup(s []string) []string {
 
 // placeholderise replaces some leaf values by placeholders; phCols records
 // the column each placeholder number is compared with (for argument choice).
-func placeholderise(t *rapid.T, e model.Expr, phCols map[int32][]string) qref.T {
+func placeholderise(t *rapid.T, e model.Expr, phCols map[int32][]string, base int) qref.T {
 	out := qref.T{Op: e.Op, Col: e.Col, Val: e.Val}
 	if e.Op == model.OpEq {
 		if rapid.IntRange(0, 9).Draw(t, "ph?") < 6 {
-			n := int32(rapid.IntRange(1, 5).Draw(t, "phn"))
+			n := int32(base + rapid.IntRange(1, 5).Draw(t, "phn"))
 			out.PH, out.Val = n, ""
 			phCols[n] = append(phCols[n], e.Col)
 		}
 		return out
 	}
 	for _, s := range e.Subs {
-		out.Subs = append(out.Subs, placeholderise(t, s, phCols))
+		out.Subs = append(out.Subs, placeholderise(t, s, phCols, base))
 	}
 	return out
 }
@@ -364,7 +385,12 @@ func drawCase(t *rapid.T) *Case {
 	d := model.NewData(c.Data.Rows())
 	pool := gen.NewLeafPool(d)
 	phCols := map[int32][]string{}
-	c.Tree = placeholderise(t, pool.Expr(t, gen.ExprOpts{MaxDepth: 4, MaxArity: 3}), phCols)
+	// placeholder numbers are usually 1..5; sometimes they start higher (a few
+	// more arguments than fingers, or beyond 64 / 256 / 1024 positions), the
+	// positions below being gaps no placeholder refers to
+	base := rapid.SampledFrom([]int{0, 0, 0, 0, 0, 0, 0, 0, 0, 0, 2, 4, 7, 28, 60, 62, 63, 124, 252, 1021}).Draw(t, "phbase")
+	c.Tree = placeholderise(t, pool.Expr(t, gen.ExprOpts{MaxDepth: 4, MaxArity: 3}), phCols, base)
+	c.Twin = c.Prepare && rapid.IntRange(0, 4).Draw(t, "twin") == 0
 	c.GroupBy = pool.GroupBy(t, 3, 0)
 	need := int(c.Tree.MaxPH())
 	nexec := rapid.IntRange(1, 6).Draw(t, "nexec")
@@ -384,28 +410,53 @@ func drawCase(t *rapid.T) *Case {
 			n = 0
 		}
 		var args []Arg
-		for i := 1; i <= n; i++ {
-			var a Arg
-			switch rapid.IntRange(0, 9).Draw(t, "argkind") {
-			case 0, 1:
-				a = Arg{IsInt: true, I: int64(rapid.IntRange(-3, 12).Draw(t, "int"))}
-			case 2, 3:
-				a = Arg{S: gen.Value().Draw(t, "argval")}
-			default:
-				// an existing value of a column this placeholder is compared with
-				cols := phCols[int32(i)]
-				if len(cols) == 0 || !d.HasColumn(cols[0]) {
-					a = Arg{S: gen.Value().Draw(t, "argval2")}
-				} else {
-					vals := d.Values(cols[rapid.IntRange(0, len(cols)-1).Draw(t, "argcol")])
-					a = Arg{S: vals[rapid.IntRange(0, len(vals)-1).Draw(t, "argvi")]}
+		if prev := len(c.Execs) - 1; prev >= 0 && len(c.Execs[prev]) == n && len(phCols) > 0 && rapid.IntRange(0, 9).Draw(t, "neighbour") < 4 {
+			// the previous argument list with exactly one referenced position
+			// changed (usually the highest one)
+			args = append(args, c.Execs[prev]...)
+			var refs []int
+			for ph := range phCols {
+				if int(ph) <= n {
+					refs = append(refs, int(ph))
 				}
 			}
-			args = append(args, a)
+			sort.Ints(refs)
+			if len(refs) > 0 {
+				pos := refs[len(refs)-1]
+				if rapid.IntRange(0, 2).Draw(t, "whichref") == 0 {
+					pos = refs[rapid.IntRange(0, len(refs)-1).Draw(t, "refi")]
+				}
+				args[pos-1] = drawArg(t, d, phCols[int32(pos)])
+			}
+			c.Execs = append(c.Execs, args)
+			continue
+		}
+		for i := 1; i <= n; i++ {
+			if _, referenced := phCols[int32(i)]; !referenced && i <= base {
+				args = append(args, Arg{S: "unreferenced"})
+				continue
+			}
+			args = append(args, drawArg(t, d, phCols[int32(i)]))
 		}
 		c.Execs = append(c.Execs, args)
 	}
 	return c
+}
+
+func drawArg(t *rapid.T, d *model.Data, cols []string) Arg {
+	switch rapid.IntRange(0, 9).Draw(t, "argkind") {
+	case 0, 1:
+		return Arg{IsInt: true, I: rapid.OneOf(rapid.Int64Range(-3, 12), rapid.Int64Range(-3, 12),
+			rapid.SampledFrom([]int64{math.MinInt64, math.MaxInt64, 1 << 31, 1<<31 - 1, -(1 << 31) - 1, 1 << 32, 1e18, -1e15})).Draw(t, "int")}
+	case 2, 3:
+		return Arg{S: gen.Value().Draw(t, "argval")}
+	}
+	// an existing value of a column this placeholder is compared with
+	if len(cols) == 0 || !d.HasColumn(cols[0]) {
+		return Arg{S: gen.Value().Draw(t, "argval2")}
+	}
+	vals := d.Values(cols[rapid.IntRange(0, len(cols)-1).Draw(t, "argcol")])
+	return Arg{S: vals[rapid.IntRange(0, len(vals)-1).Draw(t, "argvi")]}
 }
 
 // drawCollisionCase builds a scenario around argument lists that become equal
